@@ -130,6 +130,11 @@ func judge(r *ev.Run, G *gprops, gs *gstats, ver, level int, s string) (recv any
 			r.Violate(ev.Violation{Kind: "object-with-error", Case: strCase(ver, level, s), Observed: "non-nil object together with an error", Expected: "nil object"})
 		}
 	}
+	if accepted && !v.Accept && obj != nil && G.decOn && G.dec.encode {
+		// accepted by the library although the reference rejects it (that is C07/C08's finding);
+		// the encoding obligations hold for every vector the library accepts
+		checkEncodeLoose(r, ver, level, s, obj)
+	}
 	if accepted && v.Accept && obj != nil {
 		c := &dcase{ver: ver, level: level, s: s, tok: v.Tokens, verLabel: v.Ver}
 		if G.decOn {
@@ -140,6 +145,31 @@ func judge(r *ev.Run, G *gprops, gs *gstats, ver, level int, s string) (recv any
 		}
 	}
 	return recv, accepted
+}
+
+// checkEncodeLoose: for a string the library accepts: Encode succeeds, String()==Encode(), v2: the
+// encoding is byte-identical to the input, and decoding the encoding gives the same observables.
+func checkEncodeLoose(r *ev.Run, ver, level int, s string, obj any) {
+	ob := lib.Observe(obj)
+	cs := strCase(ver, level, s)
+	if ob.EncErr != "nil" || ob.Panic != "" {
+		r.Violate(ev.Violation{Kind: "encoding", Case: cs, Observed: fmt.Sprintf("%q err=%s panic=%q", ob.Enc, ob.EncErr, ob.Panic), Expected: "an encoding of the accepted vector"})
+		return
+	}
+	if ver == 2 && ob.Enc != s {
+		r.Violate(ev.Violation{Kind: "v2-encoding-not-input", Case: cs, Observed: ob.Enc, Expected: s + "  (v2: the encoding of an accepted vector is byte-identical to the input)", GoTest: strTest(ver, level, s)})
+	}
+	if ob.Str != ob.Enc {
+		r.Violate(ev.Violation{Kind: "string-differs-from-encode", Case: cs, Observed: ob.Str, Expected: ob.Enc})
+	}
+	again, err, pan := lib.DecodeNew(ver, level, ob.Enc)
+	if err != nil || pan != "" || again == nil {
+		r.Violate(ev.Violation{Kind: "encoding-not-decodable", Case: with(cs, "encoding", ob.Enc), Observed: fmt.Sprintf("err=%v panic=%q", err, pan), Expected: "accepted"})
+		return
+	}
+	if a, b := observables(obj), observables(again); a != b {
+		r.Violate(ev.Violation{Kind: "decode-encode-decode", Case: with(cs, "encoding", ob.Enc), Observed: b, Expected: a})
+	}
 }
 
 // checkOrder: all paths to one token set give identical observables; explicit X == omitted.
